@@ -7,7 +7,7 @@ const { litKey } = require('./astmon')
 function simple (n) {
   if (!n) return false
   if (n.type === 'Identifier' || n.type === 'Literal' || n.type === 'ThisExpression') return true
-  if (n.type === 'SpreadElement') return n.argument.type === 'Identifier'
+  if (n.type === 'SpreadElement') return n.argument.type === 'Identifier' || n.argument.type === 'Literal' // a spread literal is copied like any literal
   if (n.type === 'TemplateLiteral' && n.expressions.length === 0) return true
   return false
 }
